@@ -69,8 +69,9 @@ class LiteralEvaluator:
 			right = elements[index + 1]
 			index += 2
 			try:
-				if isinstance(left, float) or isinstance(right, float) or op == '/':
-					left = self._calc(float(left), op, float(right))
+				if isinstance(left, (int, float)) and isinstance(right, (int, float)) and (isinstance(left, float) or isinstance(right, float) or op == '/'):
+					# XXX 整数同士の除算はfloatへの変換を経由すると精度が落ちるため、Pythonの型昇格に任せる
+					left = float(self._calc(left, op, right))
 				elif isinstance(left, int) and isinstance(right, int):
 					left = int(self._calc(left, op, right)) if op in LiteralEvaluator.ArthmeticOps else self._bitwise(left, op, right)
 				elif isinstance(left, str) and isinstance(right, str) and op == '+':
